@@ -25,10 +25,20 @@ def experiment_graph(records: list):
     return ExperimentRecord(episodes=list(records)).to_graph()
 
 
+class CompileRaised(Exception):
+    """Graph(...) itself raised. Not a verdict of any claimed property (they speak about graphs that compile): the run is counted as
+    skipped/compile_raised by the campaign, which turns a majority of skipped runs into an inconclusive (exit 2) result."""
+
+
 def build_graph(nodes, sup, raw, mode="mcs", prune=True, **kw):
     from rex.graph import Graph
 
-    return Graph(nodes, sup, raw, supergraph=mode_const(mode), prune=prune, progress_bar=False, **kw)
+    try:
+        return Graph(nodes, sup, raw, supergraph=mode_const(mode), prune=prune, progress_bar=False, **kw)
+    except Exception as e:  # observed on the pinned tree: KeyError in Timings.get_buffer_sizes (D8), AssertionError inside supergraph.grow_supergraph (D10)
+        import traceback
+
+        raise CompileRaised(f"mode={mode} prune={prune}: " + "".join(traceback.format_exception(None, e, e.__traceback__))[-700:]) from e
 
 
 _JIT_CACHE: dict = {}
